@@ -17,6 +17,7 @@ HISTORY = {  # changes that an earlier version of the checks missed, and what wa
     "agent-C19": "missed at first by C19 (caught by C10): derived circuits were compiled before the load; the L event now compiles them lazily after load_state_dict",
     "revert-13-4866aad": "C02 missed it at first (C07 caught it): added complex-parameter pipelines with conjugation to C02",
     "agent-C03": "C02 missed it at first (C03 caught it): added mixed input kinds per variable to C02",
+    "agent6-C13": "missed at first: gradients were compared across flags (identical under the change) and with finite differences at 1e-5 on O(1) values (error 1e-12); added the 'tiny' valuation (sum weights ~1e-7) and a comparison of every semiring's gradient with the sum-product semiring's autograd at 1e-8 relative",
     "agent6-C11": "missed at first: every categorical probability of the explored circuits was positive, so no placeholder at a marginalised position had likelihood zero; added probability tables with exact zeros, with every row of the domain used as placeholder",
     "agent5-C19": "missed at first by C19 and C10: no compiled circuit was ever put in evaluation mode; both checks now also run configurations in which every circuit (C19: the fresh instance) is in eval mode and evaluated once before the update / load",
     "agent4-C01": "C01 missed it at first (C14 caught it): all sum layers of a circuit shared one weight parameterisation; added 'alt' / 'alt2' (softmax(tensor) and plain tensors alternate between sibling sums)",
